@@ -110,6 +110,9 @@ def shards_quartets(tier):
 def whole_st(draw, lmax):
     shells = draw(gen.basis(nmin=2, nmax=3, lmax=lmax, kmax=2, mmax=2, types=("cartesian",), exp_lo=0.1, exp_hi=10.0,
                             halves=(0.5, 2.0)))
+    for s in shells:  # the property's random domain: 0.2..5 when an f shell is present
+        if s["l"] >= 3 or max(x["l"] for x in shells) >= 3:
+            s["exps"] = [min(5.0, max(0.2, e)) for e in s["exps"]]
     types = [draw(st.sampled_from(gen.TYPES)) for _ in shells]
     for s, t in zip(shells, types):
         s["type"] = t
